@@ -11,6 +11,9 @@ D3 no inverted Ok: two-sided results are built by the checked constructor only (
    who-may-construct).
 D4 error table on the state-based producers: n < 2 => TooFewSamples; non-finite statistics =>
    InvalidInputData (Arithmetic, Geometric, Harmonic, Paired, Unpaired).
+D5 unequal paired lengths: Paired::extend / Paired::ci return Ok only on paths that saw both samples end
+   after equally many elements (trace rule over the `next` events, loop iterations balanced); paths that
+   established a mismatch return DifferentSampleSizes.
 U: panics inside generic element operators (T: Sub on integers in `width`) are not visible in
    generic MIR."""
 from fractions import Fraction
@@ -40,6 +43,76 @@ def documented(kind, where):
     if 'Number of successes must not be larger' in kind:
         return 'documented: Stats::new with successes > population'
     return None
+
+
+def lockstep_errors(chk, facts, fn, name, names, sfx):
+    """Paired feeders walk two samples in lockstep.  Treating the samples as (fused) sequences, a path has
+    established len(a) == len(b) only if it saw both iterators exhausted after the same number of elements;
+    every other path must not return Ok.  Counting: iterations of a summarised loop must take equally many
+    elements from both samples; outside the loop templates the `next` events of the path are counted per sample."""
+    from .. import iters
+    where = facts.loc(fn['id'])
+    key = '%s:lengths:Paired::%s%s' % (PID, name, sfx)
+    try:
+        sx = Summarizer(facts, assume_no_overflow=True)
+        paths = sx.summarize(fn['id'], arg_names=names)
+        chk.saw(facts, fn, paths=len(paths))
+    except Unsupported as e:
+        chk.ob(key, 'E3 trace', 'Paired::%s' % name, None, 'undecided: %s' % e, where)
+        return
+    A, B = ('op', 'ref', (T.sym('a'),)), ('op', 'ref', (T.sym('b'),))
+    probs = []
+
+    def side(it):
+        src = iters.source(sx, it, sx.loop_records)
+        return 'a' if src in (A, T.sym('a')) else ('b' if src in (B, T.sym('b')) else None)
+    for rec in sx.loop_records:
+        for stp in rec.get('steps', []):
+            cnt = {'a': 0, 'b': 0, None: 0}
+            for e in stp['events']:
+                if e[0] == 'next' and e[2] is not None:
+                    cnt[side(e[1])] += 1
+            if cnt[None]:
+                probs.append('loop at %s draws from an iterator that is neither sample' % rec['where'])
+            elif cnt['a'] != cnt['b']:
+                probs.append('an iteration of the loop at %s takes %d element(s) of the first sample and %d of the second' % (rec['where'], cnt['a'], cnt['b']))
+    n_ok = n_mis = 0
+    for p in paths:
+        tr = {'a': [], 'b': []}
+        unknown = False
+        for e in p.events:
+            if e[0] == 'next':
+                sd = side(e[1])
+                if sd is None:
+                    unknown = True
+                else:
+                    tr[sd].append(e[2] is not None)
+        if unknown:
+            probs.append('a path draws from an iterator that is neither sample')
+            continue
+        # fused sequences: nothing after exhaustion
+        if any((False in t) and (True in t[t.index(False):]) for t in tr.values()):
+            continue
+        extra = {k: sum(1 for x in t if x) for k, t in tr.items()}
+        done = {k: (False in t) for k, t in tr.items()}
+        is_ok = p.is_ret() and unwrap_ok(p.ret) is not None
+        equal = done['a'] and done['b'] and extra['a'] == extra['b']
+        differ = (done['a'] and done['b'] and extra['a'] != extra['b']) or (done['a'] and not done['b'] and extra['b'] > extra['a']) or (done['b'] and not done['a'] and extra['a'] > extra['b'])
+        shown = 'first sample: %s, second sample: %s' % (''.join('S' if x else 'N' for x in tr['a']) or '-', ''.join('S' if x else 'N' for x in tr['b']) or '-')
+        if is_ok:
+            n_ok += 1
+            if not equal:
+                probs.append('returns Ok without having seen both samples end after equally many elements (polls after the loop template: %s)' % shown)
+        elif differ and p.is_ret():
+            n_mis += 1
+            if err_variant(facts, p.ret) != 'DifferentSampleSizes':
+                probs.append('unequal lengths give %s (polls: %s)' % (err_variant(facts, p.ret), shown))
+    if not n_ok:
+        probs.append('no Ok path')
+    if not n_mis:
+        probs.append('no path reports a length mismatch')
+    chk.ob(key, 'E3 trace', 'Paired::%s: Ok only after both samples ended after equally many elements; unequal lengths => DifferentSampleSizes' % name,
+           not probs, '; '.join(sorted(set(probs))[:3]), where, sample={'paths': len(paths), 'ok_paths': n_ok, 'mismatch_paths': n_mis})
 
 
 def entry_points(facts):
@@ -219,7 +292,18 @@ def run_cfg(chk, facts, cfg):
                     probs.append('no feasible path')
                 chk.ob('%s:errors:%s:%s%s' % (PID, nm, rname, sfx), 'E6 error-table', '%s::ci_mean with %s yields %s' % (nm, rname, want), not probs,
                        '; '.join(sorted(set(probs))[:3]), where, sample={'producer': nm, 'region': rname, 'feasible_paths': nfeas})
+    # ---- D5 unequal paired lengths => DifferentSampleSizes (trace rule over the `next` events of the two samples)
+    n_lock = 0
+    padt = [a for a in facts.raw['adts'] if a['path'].split('::')[-1] == 'Paired' and a.get('exported')]
+    if chk.anchor('comparison::Paired' + sfx, padt[0] if len(padt) == 1 else None):
+        for name, names in (('extend', ['self', 'a', 'b']), ('ci', ['confidence', 'a', 'b'])):
+            fn = facts.inherent(padt[0]['path'], name)
+            if not chk.anchor('Paired::%s%s' % (name, sfx), fn):
+                continue
+            n_lock += 1
+            lockstep_errors(chk, facts, fn, name, names, sfx)
     if cfg == 'default':
+        chk.floor('lockstep-entry-points', n_lock, 2)
         chk.floor('entry-points', n_entries, 54)
         chk.floor('panic-edges', n_edges, 45)
     chk.rules.append('E6: IEEE class/range abstract interpretation of every path condition (panic reachability, NaN-freeness of Ok bounds, error table)')
